@@ -1,6 +1,7 @@
 package gosym
 
 import (
+	"sort"
 	"fmt"
 	"go/types"
 	"math/big"
@@ -318,6 +319,39 @@ func showValue(v Value) string {
 		return fmt.Sprintf("map(o%d)", x.Obj)
 	case *FloatV:
 		return fmt.Sprint(x.F)
+	case *FrozenSlice:
+		if x.Nil {
+			return "fslice(nil)"
+		}
+		var ps []string
+		for _, f := range x.E {
+			ps = append(ps, showValue(f))
+		}
+		return "fslice[" + strings.Join(ps, ", ") + "]"
+	case *FrozenPtr:
+		if x.Nil {
+			return "fptr(nil)"
+		}
+		return "fptr(" + showValue(x.V) + ")"
+	case *FrozenMap:
+		if x.Nil {
+			return "fmap(nil)"
+		}
+		// canonical: entries sorted by their key's printed form (content, not insertion order)
+		var ps []string
+		for _, en := range x.E {
+			p := showValue(en.K) + "=>" + showValue(en.V)
+			if en.Present != nil {
+				p += "?" + en.Present.String()
+			}
+			ps = append(ps, p)
+		}
+		sort.Strings(ps)
+		src := ""
+		if x.Src != nil {
+			src = x.Src.String()
+		}
+		return fmt.Sprintf("fmap{%s|open=%v|%s}", strings.Join(ps, ", "), x.Open, src)
 	}
-	return fmt.Sprintf("%T", v)
+	return fmt.Sprintf("%T@%p", v, v)
 }
